@@ -437,6 +437,22 @@ class AchievableTieStream(Stream):
     def model_lines(self, case):
         return ["c07ach\t%s\t%s\t%s\t%s\t%s" % (case["s"], case["f"], enc_list(case["cpr"]), enc_list(case["con"]), enc_list(case["lic"]))]
 
+    def oracle(self, case, impl_out):
+        """The property's second sentence, on every case (whether or not the theorem's hypotheses hold): a header that
+        `_create_new_header` hands out — which the command then writes and reports as success — reads back everything that was
+        requested: notices, expressions and (the bundled template renders them) contributors."""
+        if not impl_out.startswith("ok:"):
+            return None
+        read = impl_out.split("#", 1)[1]
+        if read.startswith("unreadable:"):
+            return "readback-parse: a header is handed out that the reader cannot parse (%s)" % read
+        cpr, lic, con = (set(dec_list(x)) for x in read.split("|"))
+        for kind, want, got in (("copyright", set(case["cpr"]), cpr), ("licence", set(case["lic"]), lic), ("contributor", set(case["con"]), con)):
+            if not want <= got:
+                return "readback-%s: style %s: a header is handed out from which the requested %r cannot be read back (read: %r)" % (
+                    kind, case["s"], sorted(want - got), sorted(got))
+        return None
+
     def agree(self, case, impl_out, model_out):
         h, why, res = model_out.split("|", 2)
         self.why = getattr(self, "why", {})
@@ -492,8 +508,10 @@ class NewHeaderStream(Stream):
     exhaustive = True
     rule = ("_create_new_header for every style of the table x {default, forced multi-line} x the ten prefixes x {year, year range, no year} "
             "x 6 holders (non-ASCII, punctuation) x licences / contributors, and 11 templates (rendered by real Jinja, handed to the "
-            "model as text); model: Model.createNewHeader; oracle: a returned header reads back — with extract_reuse_info — exactly "
-            "the requested notices and expressions; non-trivial = distinct header")
+            "model as text); every style x every contributor whose tail is a comment terminator or line marker of some style of the "
+            "live table (`Jane :)`, `The other 99 %`, `semi ;`), under templates that render contributors and one that does not; "
+            "model: Model.createNewHeader; oracle: a returned header reads back — with extract_reuse_info — exactly "
+            "the requested notices and expressions, and the requested contributors when the template renders them; non-trivial = distinct header")
 
     def cases(self, tier, rng):
         holders = ["Jane Doe", "José Álvarez <j@example.org>", "张三", "R&D, Ltd.", "Eric", "Foo {Bar}"]
@@ -515,6 +533,13 @@ class NewHeaderStream(Stream):
                     continue
                 yield {"s": st.__name__, "f": ("1" if tmpl in annotcorr.COMMENTED else "0") + "0000", "tmpl": tmpl,
                        "cpr": ["SPDX-FileCopyrightText: 2020 Jane Doe", "Copyright (C) 2019 José Álvarez"], "lic": ["MIT", "Apache-2.0 OR MIT"], "con": ["Alice"]}
+            # contributors are names like holders: every name whose tail is a terminator or line marker of some style of the
+            # table, under every style, alone and next to a plain one, with the templates that render contributors and one that does not
+            for k, name in enumerate(G.tricky_names()):
+                tmpl = ["default", "default", "adds-text", "commented", "no-contributors"][(k + len(st.__name__)) % 5]
+                con = [name] + (["Alice"] if k % 2 else [])
+                yield {"s": st.__name__, "f": ("1" if tmpl in annotcorr.COMMENTED else "0") + str(k % 2) + "000", "tmpl": tmpl,
+                       "cpr": ["SPDX-FileCopyrightText: 2020 Jane Doe"] if k % 3 else [], "lic": ["MIT"] if k % 4 else [], "con": con}
 
     def impl(self, case):
         from reuse import ReuseInfo, _LICENSING
@@ -528,18 +553,35 @@ class NewHeaderStream(Stream):
             return "err:create"
         except MissingReuseInfoError:
             return "err:missing"
+        except Exception as e:  # noqa
+            return "err:traceback:" + type(e).__name__
 
     def model_lines(self, case):
         tm = "default" if case["tmpl"] == "default" else "rendered:" + enc(annotcorr.render_with(case["tmpl"], sorted(case["cpr"]), sorted(case["con"]), sorted(case["lic"])))
-        return ["newheader\t%s\t%s\t%s\t%s\t%s\t%s" % (case["s"], case["f"], tm, enc_list(case["cpr"]), enc_list(case["con"]), enc_list(case["lic"]))]
+        # the `parses` oracle: which of the expressions a template spells out does the real parser reject?
+        bad = []
+        if case["tmpl"].startswith("literal-"):
+            import re
+            from reuse import _LICENSING
+            for v in re.findall(r"SPDX-License-Identifier: (.*)", annotcorr.TEMPLATES[case["tmpl"]]):
+                try:
+                    _LICENSING.parse(v)
+                except Exception:
+                    bad.append(v)
+        return ["newheader\t%s\t%s\t%s\t%s\t%s\t%s\t%s" % (case["s"], case["f"], tm, enc_list(case["cpr"]), enc_list(case["con"]), enc_list(case["lic"]), enc_list(bad))]
 
     def oracle(self, case, impl_out):
+        if impl_out.startswith("err:traceback"):
+            return "traceback: _create_new_header with template %s ended in %s instead of a header or a refusal" % (case["tmpl"], impl_out[14:])
         if not impl_out.startswith("ok:"):
             return None
         got = G.lint_read_bytes(dec(impl_out[3:]).encode("utf-8"))
         want = (set(case["cpr"]), set(case["lic"]), set())
         if got is None or got[0] != want[0] or got[1] != want[1]:
             return "readback-header: _create_new_header returned a header from which %r is read instead of %r" % (got, want)
+        if case["tmpl"] in G.RENDERS_CONTRIBUTORS and not set(case["con"]) <= got[2]:
+            return "readback-contributor: style %s, template %s: _create_new_header returned a header from which the requested %r cannot be read back (read: %r)" % (
+                case["s"], case["tmpl"], sorted(set(case["con"]) - got[2]), sorted(got[2]))
         return None
 
     def nontrivial(self, case, impl_out):
